@@ -4,7 +4,10 @@ import (
 	vrt "github.com/cocosip/go-dicom-codecs/internal/zzvrt"
 )
 
-func init() { vrt.Register("VerifC20T1", VerifC20T1) }
+func init() {
+	vrt.Register("VerifC20T1", VerifC20T1)
+	vrt.Register("VerifC20T1Styles", VerifC20T1Styles)
+}
 
 var t1Shapes = [][2]int{{1, 1}, {2, 1}, {1, 2}, {2, 2}, {1, 5}}
 
@@ -63,4 +66,56 @@ func VerifC20T1() {
 		vrt.Out("c", int(got[i]))
 	}
 	vrt.Assert(d == 0, "C20 T1 decoder returns the encoded coefficient block")
+}
+
+var t1Styles = []int{CblkStyleLazy | CblkStyleTermAll, CblkStyleTermAll, CblkStyleLazy | CblkStyleTermAll | CblkStyleReset, CblkStyleReset, CblkStyleVSC, CblkStyleSegsym,
+	CblkStyleLazy | CblkStyleTermAll | CblkStyleSegsym | CblkStylePterm, CblkStyleLazy, CblkStyleLazy | CblkStyleReset}
+
+// VerifC20T1Styles: code-block styles (bypass, reset, terminate-all,
+// vertically causal, predictable termination, segmentation symbols) through
+// EncodeLayered / DecodeLayeredWithMode with the pass lengths the encoder
+// reports.  One large coefficient (5 bit-planes, so that bypass passes occur)
+// next to a small one; signs and bits symbolic.
+func VerifC20T1Styles() {
+	style := t1Styles[vrt.Choice("style", 0, vrt.Param("styles", 3)-1)]
+	orient := vrt.Choice("orient", 0, vrt.Param("orients", 2)-1)
+	vertical := vrt.Choice("vertical", 0, 1) == 1
+	w, h := 2, 1
+	if vertical {
+		w, h = 1, 2
+	}
+	big := int32(vrt.Int("big", 16, 31))
+	if vrt.Int("bigneg", 0, 1) == 1 {
+		big = -big
+	}
+	small := int32(vrt.Int("small", -3, 3))
+	data := []int32{big, small}
+	if vrt.Choice("swap", 0, 1) == 1 {
+		data = []int32{small, big}
+	}
+	src := []int32{data[0], data[1]}
+	maxBitplane := 4
+	numPasses := maxBitplane*3 + 1
+	enc := NewT1Encoder(w, h, style)
+	enc.SetOrientation(orient)
+	passes, out, err := enc.EncodeLayered(data, numPasses, 0, nil, uint8(style))
+	vrt.Assert(err == nil, "C20 T1 layered encoder accepts the block")
+	if err != nil {
+		return
+	}
+	lengths := make([]int, len(passes))
+	for i, p := range passes {
+		lengths[i] = p.Rate
+	}
+	dec := NewT1Decoder(w, h, style)
+	dec.SetOrientation(orient)
+	err = dec.DecodeLayeredWithMode(out, lengths, maxBitplane, 0, style&CblkStyleTermAll != 0, style&CblkStyleReset != 0)
+	vrt.Assert(err == nil, "C20 T1 layered decoder accepts the encoder's block")
+	if err != nil {
+		return
+	}
+	got := dec.GetData()
+	vrt.Assert(got[0] == src[0] && got[1] == src[1], "C20 T1 decoder returns the encoded block for this code-block style")
+	vrt.Out("c0", int(got[0]))
+	vrt.Out("c1", int(got[1]))
 }
